@@ -46,6 +46,64 @@ fn word_of(s: WeekdaySet) -> u8 {
     w
 }
 
+/// `WeekdaySet::from_array` is const-generic in the length: one instantiation per length up to 12
+fn from_array_dyn(d: &[Weekday]) -> Option<WeekdaySet> {
+    macro_rules! arr {
+        ($($n:literal),*) => {
+            match d.len() {
+                $($n => {
+                    let a: [Weekday; $n] = d.try_into().unwrap();
+                    Some(WeekdaySet::from_array(a))
+                })*
+                _ => None,
+            }
+        };
+    }
+    arr!(0, 1, 2, 3, 4, 5, 6, 7, 8, 9, 10, 11, 12)
+}
+
+/// every `FromPrimitive` integer entry point of `T` on `n`, when `n` is a value of that type
+fn from_prim<T: FromPrimitive>(ty: &str, n: i128) -> Option<Option<T>> {
+    Some(match ty {
+        "i8" => T::from_i8(i8::try_from(n).ok()?),
+        "i16" => T::from_i16(i16::try_from(n).ok()?),
+        "i32" => T::from_i32(i32::try_from(n).ok()?),
+        "i64" => T::from_i64(i64::try_from(n).ok()?),
+        "isize" => T::from_isize(isize::try_from(n).ok()?),
+        "i128" => T::from_i128(n),
+        "u8" => T::from_u8(u8::try_from(n).ok()?),
+        "u16" => T::from_u16(u16::try_from(n).ok()?),
+        "u32" => T::from_u32(u32::try_from(n).ok()?),
+        "u64" => T::from_u64(u64::try_from(n).ok()?),
+        "usize" => T::from_usize(usize::try_from(n).ok()?),
+        _ => return None,
+    })
+}
+/// `Display for Weekday` under a format spec; `align`: d = none written, l `<`, r `>`, c `^`; `star`: fill `*`
+fn fmt_wd(w: Weekday, width: Option<usize>, prec: Option<usize>, align: char, star: bool) -> String {
+    macro_rules! f {
+        ($sw:literal, $sp:literal, $swp:literal, $sn:literal) => {
+            match (width, prec) {
+                (Some(wd), Some(p)) => format!($swp, w, wd = wd, p = p),
+                (Some(wd), None) => format!($sw, w, wd = wd),
+                (None, Some(p)) => format!($sp, w, p = p),
+                (None, None) => format!($sn, w),
+            }
+        };
+    }
+    match (align, star) {
+        ('l', false) => f!("{:<wd$}", "{:<.p$}", "{:<wd$.p$}", "{:<}"),
+        ('l', true) => f!("{:*<wd$}", "{:*<.p$}", "{:*<wd$.p$}", "{:*<}"),
+        ('r', false) => f!("{:>wd$}", "{:>.p$}", "{:>wd$.p$}", "{:>}"),
+        ('r', true) => f!("{:*>wd$}", "{:*>.p$}", "{:*>wd$.p$}", "{:*>}"),
+        ('c', false) => f!("{:^wd$}", "{:^.p$}", "{:^wd$.p$}", "{:^}"),
+        ('c', true) => f!("{:*^wd$}", "{:*^.p$}", "{:*^wd$.p$}", "{:*^}"),
+        _ => f!("{:wd$}", "{:.p$}", "{:wd$.p$}", "{}"),
+    }
+}
+const PRIM_TYPES: [&str; 11] = ["i8", "i16", "i32", "i64", "isize", "i128", "u8", "u16", "u32", "u64", "usize"];
+const WD_NAMES: [&str; 7] = ["Mon", "Tue", "Wed", "Thu", "Fri", "Sat", "Sun"];
+
 pub fn run(c: &mut Ctx) {
     crate::aliases::c19(c);
     // ---- finite parts, exhaustive -------------------------------------------------------------
@@ -72,6 +130,28 @@ pub fn run(c: &mut Ctx) {
         }
         if guard(|| Weekday::try_from(w.num_days_from_monday() as u8).ok() == Some(*w)) != Ok(true) {
             c.fail("Weekday::try_from(num_days_from_monday) is not the weekday", &format!("{:?}", w));
+        }
+        // Display under format flags (`f.pad`): precision cuts, width fills on the side the alignment says
+        for width in [None, Some(0usize), Some(2), Some(3), Some(4), Some(5), Some(8)] {
+            for prec in [None, Some(0usize), Some(1), Some(2), Some(3), Some(4)] {
+                for (align, star) in [('d', false), ('l', false), ('l', true), ('r', false), ('r', true), ('c', false), ('c', true)] {
+                    let got = guard(|| fmt_wd(*w, width, prec, align, star));
+                    let fill = if star { '*' } else { ' ' };
+                    c.op(
+                        &format!("wd.fmt {i} {} {} {align} {}", opt(width), opt(prec), fill as u32),
+                        &match &got { Ok(s) => hex(s.as_bytes()), Err(()) => "panic".into() },
+                    );
+                    c.count("fmt:weekday-flags");
+                    // direct oracle, by hand
+                    let core = &WD_NAMES[i][..prec.unwrap_or(3).min(3)];
+                    let n = width.unwrap_or(0).saturating_sub(core.len());
+                    let (pre, post) = match align { 'r' => (n, 0), 'c' => (n / 2, n - n / 2), _ => (0, n) };
+                    let want = format!("{}{}{}", fill.to_string().repeat(pre), core, fill.to_string().repeat(post));
+                    if got != Ok(want.clone()) {
+                        c.fail("weekday Display under width/precision flags is not the padded, cut name", &format!("{:?} width {:?} precision {:?} align {align}: {:?}, expected {:?}", w, width, prec, got, want));
+                    }
+                }
+            }
         }
         let mut x = *w;
         for k in 1..=7 {
@@ -157,6 +237,41 @@ pub fn run(c: &mut Ctx) {
             );
         }
     }
+    // the declared constants
+    c.op("ws.const", &gs(|| (word_of(WeekdaySet::EMPTY), word_of(WeekdaySet::ALL)), |t| format!("{} {}", t.0, t.1)));
+    for d in WD {
+        if WeekdaySet::EMPTY.contains(d) || !WeekdaySet::ALL.contains(d) {
+            c.fail("EMPTY contains a weekday or ALL lacks one", &format!("{:?}", d));
+        }
+    }
+    if !WeekdaySet::EMPTY.is_empty() || WeekdaySet::EMPTY.len() != 0 || WeekdaySet::ALL.len() != 7 || WeekdaySet::default() != WeekdaySet::EMPTY {
+        c.fail("EMPTY / ALL / default have the wrong size", "");
+    }
+    // text forms of all 128 sets
+    for a in 0u8..128 {
+        let sa = set_of(a);
+        c.op(
+            &format!("ws.fmt {a}"),
+            &gs(|| (sa.to_string(), format!("{:?}", sa)), |t| format!("{} {}", hex(t.0.as_bytes()), hex(t.1.as_bytes()))),
+        );
+        // direct oracle, independent reference: the members' names in week order / the seven bits
+        let names: Vec<&str> = (0..7).filter(|i| a >> i & 1 == 1).map(|i| WD_NAMES[i]).collect();
+        let want_display = format!("[{}]", names.join(", "));
+        let want_debug = format!("WeekdaySet({})", (0..7).rev().map(|i| if a >> i & 1 == 1 { '1' } else { '0' }).collect::<String>());
+        if guard(|| sa.to_string()) != Ok(want_display.clone()) {
+            c.fail("Display of a weekday set is not the list of its members in week order", &format!("word {a}: expected {want_display}"));
+        }
+        if guard(|| format!("{:?}", sa)) != Ok(want_debug.clone()) {
+            c.fail("Debug of a weekday set is not its seven membership bits", &format!("word {a}: expected {want_debug}"));
+        }
+        c.count("fmt:set");
+    }
+    // observation, not judged (outside the statement): the iterator overrides `len` but not `size_hint`
+    c.sample(&format!(
+        "not judged: WeekdaySet::ALL.iter(Mon).size_hint() = {:?} while len() = {}",
+        WeekdaySet::ALL.iter(Weekday::Mon).size_hint(),
+        WeekdaySet::ALL.iter(Weekday::Mon).len()
+    ));
     let nsched = c.n(7, 9);
     for a in 0u8..128 {
         let sa = set_of(a);
@@ -206,6 +321,37 @@ pub fn run(c: &mut Ctx) {
                     |t| format!("f={} b={} left={}", t.0.join(" "), t.1.join(" "), t.2),
                 );
                 c.op(&format!("ws.iter {a} {j} {k} {nsched}"), &got);
+                // ExactSizeIterator::len before / after the same schedule, then drained; FusedIterator
+                let lens = guard(|| {
+                    let mut it = sa.iter(*st);
+                    let len0 = it.len();
+                    let mut pulled = 0usize;
+                    for i in 0..nsched {
+                        let r = if k >> i & 1 == 1 { it.next() } else { it.next_back() };
+                        pulled += r.is_some() as usize;
+                    }
+                    let len = it.len();
+                    while it.next().is_some() {}
+                    let drained = it.len();
+                    let fused = (0..3).all(|_| it.next().is_none() && it.next_back().is_none());
+                    (len0, len, drained, fused, pulled)
+                });
+                match lens {
+                    Ok((len0, len, drained, fused, pulled)) => {
+                        c.op(
+                            &format!("ws.iterx {a} {j} {k} {nsched}"),
+                            &format!("len0={len0} len={len} drained={drained} fused={}", b01(fused)),
+                        );
+                        let members = a.count_ones() as usize;
+                        if len0 != members || len + pulled != members || drained != 0 {
+                            c.fail("iterator len is not the number of members still to come", &format!("word {a} start {j} schedule {k}: {len0} {len} {drained}, pulled {pulled}"));
+                        }
+                        if !fused {
+                            c.fail("iterator returned an item after returning None", &format!("word {a} start {j} schedule {k}"));
+                        }
+                    }
+                    Err(()) => c.op(&format!("ws.iterx {a} {j} {k} {nsched}"), "panic"),
+                }
             }
         }
     }
@@ -226,8 +372,74 @@ pub fn run(c: &mut Ctx) {
         nums.push(v);
         nums.push((c.rng.next() as i128) << 3 | c.rng.below(8) as i128);
     }
+    for base in [i128::MIN, i128::MAX, u64::MAX as i128 + 1, i64::MIN as i128 - 1, 1i128 << 64, 1i128 << 100, -(1i128 << 64), -(1i128 << 100)] {
+        for j in 0i128..=13 {
+            nums.push(base.saturating_add(j));
+            nums.push(base.saturating_sub(j));
+            // numbers that a narrowing cast to 8/16/32/64 bits would turn into a weekday / month number
+            nums.push((1i128 << 64) + j);
+            nums.push((1i128 << 16) + j);
+            nums.push(-(1i128 << 8) + j);
+            nums.push(-(1i128 << 16) + j);
+        }
+    }
     nums.sort();
     nums.dedup();
+    // every FromPrimitive integer entry point (the ones the impls do not write are num_traits' defaults)
+    for &n in &nums {
+        for ty in PRIM_TYPES {
+            let (Some(w), Some(m)) = (guard(|| from_prim::<Weekday>(ty, n)).unwrap_or(None), guard(|| from_prim::<Month>(ty, n)).unwrap_or(None)) else {
+                continue;
+            };
+            c.op(&format!("wd.from_prim {ty} {n}"), &ow(w));
+            c.op(&format!("mo.from_prim {ty} {n}"), &om(m));
+            c.count(&format!("prim:{ty}"));
+            // direct oracle: accepted exactly on the numbers 0..=6 / 1..=12, with that value
+            let want_w = if (0..=6).contains(&n) { Some(WD[n as usize]) } else { None };
+            let want_m = if (1..=12).contains(&n) { Some(MO[n as usize - 1]) } else { None };
+            if w != want_w {
+                c.fail("Weekday FromPrimitive conversion is not the inverse of the numbering", &format!("from_{ty}({n}) -> {:?}", w));
+            }
+            if m != want_m {
+                c.fail("Month FromPrimitive conversion is not the inverse of the numbering", &format!("from_{ty}({n}) -> {:?}", m));
+            }
+        }
+        if let Ok(v) = u128::try_from(n) {
+            c.op(&format!("wd.from_prim u128 {n}"), &gs(|| Weekday::from_u128(v), ow));
+            c.op(&format!("mo.from_prim u128 {n}"), &gs(|| Month::from_u128(v), om));
+            c.count("prim:u128");
+        }
+    }
+    for v in [u128::MAX, u128::MAX - 1, (1u128 << 127) + 3, (1u128 << 127) + 12] {
+        c.op(&format!("wd.from_prim u128 {v}"), &gs(|| Weekday::from_u128(v), ow));
+        c.op(&format!("mo.from_prim u128 {v}"), &gs(|| Month::from_u128(v), om));
+        if guard(|| Weekday::from_u128(v).is_none() && Month::from_u128(v).is_none()) != Ok(true) {
+            c.fail("from_u128 accepts a huge number", &format!("{v}"));
+        }
+    }
+    // TryFrom<u8>: exhaustive, both directions, and the error value
+    for v in 0u8..=255 {
+        let want_w = if v <= 6 { Some(WD[v as usize]) } else { None };
+        let want_m = if (1..=12).contains(&v) { Some(MO[v as usize - 1]) } else { None };
+        if guard(|| Weekday::try_from(v).ok()) != Ok(want_w) {
+            c.fail("Weekday::try_from(u8) is not the inverse of the numbering", &format!("{v}"));
+        }
+        if guard(|| Month::try_from(v).ok()) != Ok(want_m) {
+            c.fail("Month::try_from(u8) is not the inverse of the numbering", &format!("{v}"));
+        }
+        if let Ok(Err(e)) = guard(|| Month::try_from(v)) {
+            if e.to_string() != "out of range" || Weekday::try_from(200u8).err() != Some(e) {
+                c.fail("Month::try_from(u8) error is not the OutOfRange value", &format!("{v}: {e}"));
+            }
+        }
+    }
+    // floats are outside the property's quantifier (num_traits' from_f64 truncates): recorded, not judged
+    c.sample(&format!(
+        "outside the quantifier: Weekday::from_f64(0.5) = {:?}, Month::from_f64(1.9) = {:?}, Weekday::from_f32(-0.9) = {:?}",
+        Weekday::from_f64(0.5),
+        Month::from_f64(1.9),
+        Weekday::from_f32(-0.9)
+    ));
     for &n in &nums {
         if let Ok(v) = u8::try_from(n) {
             c.op(&format!("wd.from_u8 {n}"), &gs(|| Weekday::try_from(v).ok(), ow));
@@ -397,6 +609,15 @@ pub fn run(c: &mut Ctx) {
         let want = seq.iter().fold(0u8, |w, d| w | 1 << (*d as u8));
         let got = guard(|| word_of(seq.iter().copied().collect::<WeekdaySet>()));
         c.count(if len > 7 { "collect:longer-than-7" } else { "collect:up-to-7" });
+        let line: String = seq.iter().map(|d| format!(" {}", wi(*d))).collect();
+        c.op(&format!("ws.collect{line}"), &match got { Ok(w) => w.to_string(), Err(()) => "panic".into() });
+        if let Ok(Some(arr)) = guard(|| from_array_dyn(&seq)) {
+            c.op(&format!("ws.from_array{line}"), &word_of(arr).to_string());
+            c.count("collect:from_array");
+            if word_of(arr) != want {
+                c.fail("from_array does not give exactly the members of the array", &format!("{:?} -> word {}, expected word {want}", seq, word_of(arr)));
+            }
+        }
         if got != Ok(want) {
             c.fail("collecting weekdays into a set does not give exactly the members of the sequence", &format!("{:?} -> {:?}, expected word {want}", seq, got));
         }
